@@ -14,7 +14,7 @@ import assemble as asmmod
 from rsx import ExtractError
 
 VERIF = asmmod.VERIF
-BUILD = os.path.join(VERIF, 'build')
+BUILD = os.environ.get('VERIF_BUILD', os.path.join(VERIF, 'build'))
 
 CANARY = '''
 verus! {
